@@ -378,6 +378,13 @@ COMMANDS = [
     ("stderr", "printf 'oops\\ttab\\r\\n' >&2", "", "oops\ttab\r\n"),
     ("both", "printf out; printf err >&2", "out", "err"),
     ("noop", ":", "", ""),
+    # content changes, size and modification time do not (cp -p / rsync -t / reproducible-build style)
+    ("same_size_same_mtime", "for f in ./*; do if [ -f \"$f\" ] && [ -s \"$f\" ]; then cp -p \"$f\" ./.keep_mtime; "
+                             "printf 'Z' | dd of=\"$f\" bs=1 count=1 conv=notrunc 2>/dev/null; touch -r ./.keep_mtime \"$f\"; "
+                             "rm -f ./.keep_mtime; break; fi; done", "", ""),
+    ("same_size_same_mtime_deep", "f=$(find . -type f -size +0 | sort | tail -1); if [ -n \"$f\" ]; then cp -p \"$f\" ./.keep_mtime; "
+                                  "printf 'Q' | dd of=\"$f\" bs=1 count=1 conv=notrunc 2>/dev/null; touch -r ./.keep_mtime \"$f\"; "
+                                  "rm -f ./.keep_mtime; fi", "", ""),
 ]
 
 
@@ -447,5 +454,5 @@ def main(ctx):
              "non-trivial = tree has files; distinct by (tree listing, arguments)",
         assumptions=["the independent walk (os.stat / os.listdir / hashlib) is the reference", "os.path.normpath == path normalisation on the generated arguments"],
         required=["outcome:ok", "tree:plain", "tree:symlinks", "tree:cyclic", "args:overlap", "lstrip:yes", "algs:sha256+sha512",
-                  "run:create", "run:delete", "run:stdout", "tree:symlink_chain", "tree:relative_symlink_in_subdir"],
+                  "run:create", "run:delete", "run:stdout", "run:same_size_same_mtime", "tree:symlink_chain", "tree:relative_symlink_in_subdir"],
         min_evals=300)
